@@ -6,7 +6,7 @@ from . import execfam as X
 def gen(rng, tier):
     old = rng.randint(1, 4)
     new = rng.randint(1, 4)
-    timeout = rng.choice([10.0, 10.0, 33.0, 0.2, 0.05, 0.0])
+    timeout = rng.choice([10.0, 10.0, 33.0, 0.2, 0.05, 0.0, None, None])
     threads = [[]]
     main = threads[0]
     main.append({"op": "reusable", "ex": "A", "kw": {"max_workers": old, "timeout": timeout}})
@@ -30,6 +30,8 @@ def gen(rng, tier):
     if rng.random() < 0.3:
         main.append({"op": "reusable", "ex": "A", "kw": {"max_workers": rng.randint(1, 4), "timeout": timeout}, "resize": True})
     main.append({"op": "wait_all"})
+    if rng.random() < 0.6:
+        main.append({"op": "sleep", "d": rng.choice([0.01, 0.3, 2.0])})
     main.append({"op": "shutdown", "ex": "A", "wait": True})
     faults = []
     r = rng.random()
@@ -37,7 +39,7 @@ def gen(rng, tier):
         faults.append(dict(kind="kill", target=["w", rng.randrange(old)], sig=rng.choice([9, 11]),
                            at=["op", rng.randint(8, 140)]))
     kn = gen_knobs(rng, tier)
-    if timeout < 1 and rng.random() < 0.6:
+    if timeout is not None and timeout < 1 and rng.random() < 0.6:
         kn["J"] = rng.choice([0.05, 1.0])
         kn["p_time"] = rng.choice([0.05, 0.2])
     return dict(family="resize", knobs=kn, model=gen_model(rng), threads=threads, faults=faults, old=old, new=new)
